@@ -448,6 +448,10 @@ BOUNDED = {
                  obligation="frontend/bounded-standin/front.extract",
                  known_cases="contracts/known_front_cases.txt",
                  what="`contains only constructs the code generator can print`, end to end: the generated programs of C04's frontend stand-in (Exclude / Extract / keyof / indexed access / conditional types over 36 leaf types, see evidence/C04.json) must compile to a module: emit_code() neither panics nor fails, and no named runtype is defined twice"),
+            dict(family="front", args_quick=["--exclude", "3"], args_thorough=["--exclude", "1"],
+                 obligation="frontend/bounded-standin/exclude.printed_type",
+                 known_cases="contracts/known_exclude_cases.txt",
+                 what="`Exclude<A, B>` at SOURCE level for A, B from 171 types (literals, basic types, tuples, arrays, objects, two named recursive types and their pairwise unions; every 3rd of the 29241 pairs in the quick tier): the type handed to code generation for the result is read with an independent evaluator of Runtype on about 170 finite values and must lie between the set difference and A; when every top-level member of A is, on those values, either inside or outside B, it must be exactly the union of the members outside (programs answered with a diagnostic are skipped)"),
             dict(family="keyof", obligation="access/bounded-standin/keyof.keyof",
                  known_cases="contracts/known_keyof_cases.txt",
                  what="keyof (not under contract): keyof A, keyof (A & B), keyof (A | B) for object atoms whose declared keys are the non-empty subsets of {a, b, c}, 147 questions, against the declared keys / their union / their intersection"),
